@@ -21,8 +21,9 @@ for install in ("rename", "copy"):
             add("S2 two versions sharing the cache", [V1, V2], init, install, -1, crashes)
     for init in (["empty", "valid"] if tier == "quick" else INITS):
         for crashes in (0, 1):
-            add("S1 three same-version link steps", [V1, V1, V1], init, install, 2 if tier == "quick" else 3, crashes)
-            add("S2 three link steps, versions alternating", [V1, V2, V1], init, install, 2 if tier == "quick" else 3, crashes)
+            b3 = (2 if crashes == 0 else 1) if tier == "quick" else (3 if crashes == 0 else 2)   # preemption bound for 3 processes
+            add("S1 three same-version link steps", [V1, V1, V1], init, install, b3, crashes)
+            add("S2 three link steps, versions alternating", [V1, V2, V1], init, install, b3, crashes)
     if tier != "quick":
         add("S2 four link steps, versions alternating", [V1, V2, V1, V2], "empty", install, 2, 1)
         add("S2 three link steps, two crashes", [V1, V2, V1], "valid", install, 2, 2)
@@ -123,6 +124,8 @@ R.finish({
     "states": states, "transitions": trans, "traces_validated_against_impl": validated,
     "samples": [{"scenario": reports[0]["scenario"], "trace": reports[0]["sample_trace"]}],
     "executions": execs, "scenarios": len(reports), "capped_scenarios": capped,
+    "per_scenario": [{"name": r["scenario"]["name"], "versions": r["scenario"]["versions"], "init": r["scenario"]["init"], "install": r["scenario"]["install"], "preemption_bound": r["scenario"]["bound"],
+                      "crashes": r["scenario"]["crashes"], "executions": r["executions"], "transitions": r["transitions"], "distinct_outcomes": r["distinct_outcomes"]} for r in reports],
     "explanation": "stateless DFS over all interleavings (2 processes: unbounded; >=3: preemption bound) and crash points of the real linker.PatchLinker + the unlock/run order of main.go, "
                    "under a cooperative scheduler with an OS shim; `states` = distinct (outcome vector, final link, final stamp) per scenario summed; external programs are stubs whose operation "
                    "sequences are compared with strace of the real `go build -o` (traces_validated_against_impl). Real concurrent builds (%d) are sampled and reported separately." % real_runs,
